@@ -69,6 +69,7 @@ namespace
         vw::WorldSpec spec;
         uint64_t seed = 0;
         bool replaying = false;
+        bool generating = false;  // the workload generator (which runs library code) is in progress
     } g_cur;
 
     std::string write_replay(const std::string& cls, const std::string& key, const std::string& detail)
@@ -82,6 +83,9 @@ namespace
         f << "harness world\nflavour " VERIF_FLAVOUR "\nmode " << g_mode << "\n";
         f << "seed " << g_cur.seed << "\nrun " << g_cur.res.run << "\n";
         f << "class " << cls << "\nkey " << key << "\n";
+        f << "tier " << g_args.tier << "\n";
+        if (g_cur.generating)
+            f << "regenerate 1\n";  // died while generating the workload: replay re-runs the generator
         std::string d = detail.substr(0, 1500);
         std::replace(d.begin(), d.end(), '\n', ' ');
         f << "detail " << d << "\n";
@@ -132,7 +136,7 @@ namespace
         g_cur.res.verdict = "violation";
         g_cur.res.cls = "sanitizer";
         g_cur.res.key = "sanitizer:fatal:" + (scls.empty() ? std::string("unknown") : scls) + ":" + where;
-        g_cur.res.detail = "fatal sanitizer report (process killed) during op#" + std::to_string(vw::g_current_op) + "\n" + sum;
+        g_cur.res.detail = std::string("fatal error (sanitizer report / assertion / abort, process killed) ") + (g_cur.generating ? "while generating the workload" : "during op#" + std::to_string(vw::g_current_op)) + "\n" + sum + text.substr(0, 600);
         g_cur.res.st = vsim::current_stats();
         if (!g_cur.replaying && g_args.gates("sanitizer"))
             g_cur.res.replay_path = write_replay("sanitizer", g_cur.res.key, g_cur.res.detail);
@@ -159,6 +163,12 @@ namespace
         vh::print_result(g_cur.res, true);
         g_agg.print();
         _exit(4);
+    }
+
+    void on_abort(int)
+    {
+        on_sanitizer_death();
+        _exit(77);
     }
 
     vsim::Config gen_cfg(Rng& r, bool thorough)
@@ -290,6 +300,7 @@ int main(int argc, char** argv)
 {
     __sanitizer_set_death_callback(&on_sanitizer_death);
     signal(SIGALRM, &on_alarm);
+    signal(SIGABRT, &on_abort);
     g_args = vh::parse_args(argc, argv);
     g_cap.start();
     vsim::install();
@@ -307,13 +318,39 @@ int main(int argc, char** argv)
             return 2;
         }
         g_cur = Current();
+        if (rf.kv.count("mode"))
+            g_mode = atoi(rf.kv["mode"].c_str());
+        if (rf.kv.count("regenerate"))
+        {
+            // the original run died inside the workload generator: run the generator again
+            uint64_t seed = strtoull(rf.kv["seed"].c_str(), nullptr, 10), run = strtoull(rf.kv["run"].c_str(), nullptr, 10);
+            g_cur.seed = seed;
+            g_cur.res.run = run;
+            g_cur.replaying = true;
+            Rng wr;
+            wr.seed(vsim::mix64(seed, run * 2 + 1));
+            int kind = static_cast<int>(wr.below(vw::G_COUNT));
+            if (g_mode == vw::MODE_C10 && wr.chance(0.3))
+                kind = wr.chance(0.5) ? vw::G_TRIMESH : (wr.chance(0.5) ? vw::G_RASTER_QUEEN_NC : vw::G_RASTER_ROOK_NC);
+            if (g_mode == vw::MODE_C07 && kind == vw::G_TRIMESH)
+                kind = vw::G_RASTER_QUEEN;
+            g_cur.spec.grid.kind = kind;
+            vh::print_begin(run);
+            begin_window();
+            g_cur.generating = true;
+            vw::get_runner(kind)->generate(wr, g_mode, rf.kv["tier"] == "thorough", g_cur.spec);
+            g_cur.generating = false;
+            vsim::Config cfg = gen_cfg(wr, rf.kv["tier"] == "thorough");
+            g_cur.res.workload = vw::spec_brief(g_cur.spec);
+            run_one(cfg);
+            vh::print_result(g_cur.res, true);
+            return g_cur.res.verdict == "ok" ? 0 : 1;
+        }
         if (!vw::spec_from_tokens(rf.extra, rf.ops, g_cur.spec))
         {
             fprintf(stdout, "{\"error\":\"bad world spec in replay file\"}\n");
             return 2;
         }
-        if (rf.kv.count("mode"))
-            g_mode = atoi(rf.kv["mode"].c_str());
         vsim::Config cfg;
         cfg.strategy = vsim::ST_REPLAY;
         cfg.replay = rf.devs;
@@ -345,11 +382,34 @@ int main(int argc, char** argv)
         g_cur.spec.grid.kind = kind;
         vh::print_begin(run);
         begin_window();
+        g_cur.generating = true;
+        vw::g_current_op = -1;
         vw::get_runner(kind)->generate(wr, g_mode, thorough, g_cur.spec);
+        g_cur.generating = false;
         vsim::Config cfg = gen_cfg(wr, thorough);
         g_cur.res.workload = vw::spec_brief(g_cur.spec);
         g_cur.res.workload_hash = spec_hash(g_cur.spec);
         run_one(cfg);
+        if (g_args.verify_replay && g_cur.res.verdict == "ok" && !vsim::deviations_overflowed())
+        {
+            vh::Result first = g_cur.res;
+            vsim::Config rc;
+            rc.strategy = vsim::ST_REPLAY;
+            rc.replay = vsim::deviations();
+            rc.step_budget = cfg.step_budget;
+            g_cur.res = vh::Result();
+            g_cur.res.run = run;
+            run_one(rc);
+            if (g_cur.res.st.event_hash != first.st.event_hash)
+            {
+                first.verdict = "internal";
+                first.cls = "replay_mismatch";
+                first.detail = "replaying the recorded deviations gave event hash " + vh::hex64(g_cur.res.st.event_hash) + " instead of "
+                               + vh::hex64(first.st.event_hash);
+            }
+            first.counters["p.replay_verified"] = 1;
+            g_cur.res = first;
+        }
         if (g_cur.res.verdict != "ok")
         {
             if (g_args.gates(g_cur.res.cls))
